@@ -49,6 +49,10 @@ pub struct MuxCase {
     pub locator: (usize, usize),
     /// open all streams from concurrent tasks (overlapping open_stream calls) instead of one after the other
     pub concurrent_opens: bool,
+    /// per stream: 0 = nobody ends a direction; 1 = the client ends its direction (FIN) after its last chunk and
+    /// the server writes its data only afterwards; 2 = the same with the roles swapped. The direction that is
+    /// still open must deliver every byte (a FIN ends one direction only).
+    pub half_close: Vec<u8>,
 }
 
 impl MuxCase {
@@ -62,6 +66,7 @@ impl MuxCase {
             "c2s_desc": self.c2s.describe(), "s2c_desc": self.s2c.describe(),
             "scheme": self.scheme, "sched_p": self.sched_p, "inline_first": self.inline_first,
             "locator": {"shard": self.locator.0 as u64, "index": self.locator.1 as u64}, "concurrent_opens": self.concurrent_opens,
+            "half_close": self.half_close,
         })
     }
     pub fn from_json(v: &Value) -> Option<MuxCase> {
@@ -87,6 +92,7 @@ impl MuxCase {
             inline_first: v.get("inline_first").and_then(|x| x.as_bool()).unwrap_or(false),
             locator: (0, 0),
             concurrent_opens: v.get("concurrent_opens").and_then(|x| x.as_bool()).unwrap_or(false),
+            half_close: v.get("half_close").and_then(|x| x.as_array()).map(|a| a.iter().filter_map(|x| x.as_u64()).map(|x| x as u8).collect()).unwrap_or_default(),
         })
     }
     pub fn shape_key(&self) -> String {
@@ -219,7 +225,23 @@ pub fn gen_case(rng: &mut Rng, max_streams: usize, budget_bytes: usize) -> MuxCa
     } else {
         None
     };
-    MuxCase { seed: rng.next(), streams, c2s, s2c, scheme, sched_p: if rng.chance(0.5) { 0.3 } else { 0.0 }, inline_first: rng.chance(0.3), locator: (0, 0), concurrent_opens: rng.chance(0.25) }
+    // half-close: only a direction written with the awaited data path can be ended right after its last chunk
+    // (a FIN written directly would overtake chunks still queued by send_data / the bridged writer)
+    let half_close: Vec<u8> = streams
+        .iter()
+        .map(|(u, d)| {
+            if !rng.chance(0.3) {
+                0
+            } else if u.write_api == 0 && !d.chunks.is_empty() && rng.chance(0.6) {
+                1
+            } else if d.write_api == 0 && !u.chunks.is_empty() {
+                2
+            } else {
+                0
+            }
+        })
+        .collect();
+    MuxCase { seed: rng.next(), streams, c2s, s2c, scheme, sched_p: if rng.chance(0.5) { 0.3 } else { 0.0 }, inline_first: rng.chance(0.3), locator: (0, 0), concurrent_opens: rng.chance(0.25), half_close }
 }
 
 /// Build an owned `Stream` (so that its AsyncRead/AsyncWrite impls are reachable)
@@ -331,7 +353,7 @@ pub async fn checked_reader(stream: Arc<Stream>, pat: Pattern, expected: u64, ap
 }
 
 /// After everything arrived: the reader must not produce anything more.
-pub async fn check_no_more(stream: &Arc<Stream>, expected: u64) -> Option<(String, String)> {
+pub async fn check_no_more(stream: &Arc<Stream>, expected: u64, ended_by_writer: bool) -> Option<(String, String)> {
     let mut buf = [0u8; 64];
     let r = tokio::time::timeout(Duration::from_secs(2), async {
         let mut g = stream.reader().lock().await;
@@ -340,6 +362,7 @@ pub async fn check_no_more(stream: &Arc<Stream>, expected: u64) -> Option<(Strin
     .await;
     match r {
         Err(_) => None,
+        Ok(Ok(0)) if ended_by_writer => None,
         Ok(Ok(0)) => Some(("eof_without_close".into(), format!("reader reports end of stream after {expected} bytes although nobody closed the stream"))),
         Ok(Ok(n)) => Some(("extra_bytes".into(), format!("{n} more byte(s) delivered after all {expected} written bytes had been read"))),
         Ok(Err(e)) => Some(("read_error_after_data".into(), format!("{e}"))),
@@ -381,6 +404,8 @@ fn cause_of(case: &MuxCase, dir: u64, si: usize) -> String {
     let plan = if dir == UP { &case.streams[si].0 } else { &case.streams[si].1 };
     if any_big {
         "chunk_gt_65535".into()
+    } else if case.half_close.get(si).copied().unwrap_or(0) != 0 {
+        "other_direction_ended_first".into()
     } else if plan.chunks.contains(&0) {
         "empty_chunk".into()
     } else {
@@ -490,13 +515,30 @@ async fn run_case_async(case: &MuxCase) -> MuxResult {
 
     let mut tasks: Vec<(u64, usize, tokio::task::JoinHandle<ReadOutcome>)> = Vec::new();
     let mut writers: Vec<tokio::task::JoinHandle<Result<(), String>>> = Vec::new();
+    let hc = |i: usize| case.half_close.get(i).copied().unwrap_or(0);
+    // "this stream's first direction has been ended" signals (a stored permit: order of notify/wait does not matter)
+    let ended: Vec<Arc<tokio::sync::Notify>> = (0..n).map(|_| Arc::new(tokio::sync::Notify::new())).collect();
+    // a writer that ends its direction afterwards / that starts only after the other direction was ended
+    async fn write_dir_hc(session: Arc<Session>, stream: Arc<Stream>, pat: Pattern, plan: DirPlan, skip_first: bool, owned: Option<OwnedW>, ends: bool, waits: bool, ended: Arc<tokio::sync::Notify>) -> Result<(), String> {
+        if waits {
+            ended.notified().await;
+            // let the peer's FIN be processed on this side before anything is written (1 virtual second = quiescence)
+            tokio::time::sleep(Duration::from_secs(1)).await;
+        }
+        write_dir(session.clone(), stream.clone(), pat, plan, skip_first, owned).await?;
+        if ends {
+            session.write_control_frame(anytls_rs::protocol::Frame::control(anytls_rs::protocol::Command::Fin, stream.id())).await.map_err(|e| format!("FIN: {e}"))?;
+            ended.notify_one();
+        }
+        Ok(())
+    }
 
     // client side: up writers, down readers
     for (i, (up, down)) in case.streams.iter().enumerate() {
         let st = client_streams[i].clone();
         let id = st.id() as u64;
         let (br, bw) = make_bridge(&st, down.read_api, up.write_api);
-        writers.push(tokio::spawn(write_dir(pair.client.clone(), st.clone(), Pattern::new(seed, id, UP), up.clone(), first_sent[i], bw)));
+        writers.push(tokio::spawn(write_dir_hc(pair.client.clone(), st.clone(), Pattern::new(seed, id, UP), up.clone(), first_sent[i], bw, hc(i) == 1, hc(i) == 2, ended[i].clone())));
         tasks.push((DOWN, i, tokio::spawn(checked_reader(st, Pattern::new(seed, id, DOWN), down.total(), down.read_api, down.read_bufs.clone(), br))));
     }
     // server side: accept streams as they appear, start down writers / up readers
@@ -522,7 +564,7 @@ async fn run_case_async(case: &MuxCase) -> MuxResult {
         let (up, down) = &case.streams[*i];
         let id = st.id() as u64;
         let (br, bw) = make_bridge(st, up.read_api, down.write_api);
-        writers.push(tokio::spawn(write_dir(pair.server.clone(), st.clone(), Pattern::new(seed, id, DOWN), down.clone(), false, bw)));
+        writers.push(tokio::spawn(write_dir_hc(pair.server.clone(), st.clone(), Pattern::new(seed, id, DOWN), down.clone(), false, bw, hc(*i) == 2, hc(*i) == 1, ended[*i].clone())));
         tasks.push((UP, *i, tokio::spawn(checked_reader(st.clone(), Pattern::new(seed, id, UP), up.total(), up.read_api, up.read_bufs.clone(), br))));
     }
 
@@ -571,14 +613,14 @@ async fn run_case_async(case: &MuxCase) -> MuxResult {
     if finished && problems.is_empty() {
         for (i, st) in client_streams.iter().enumerate() {
             if case.streams[i].1.read_api != 2
-                && let Some((sym, det)) = check_no_more(st, case.streams[i].1.total()).await
+                && let Some((sym, det)) = check_no_more(st, case.streams[i].1.total(), hc(i) == 2).await
             {
                 problems.push((cause_of(case, DOWN, i), sym, format!("stream #{i} server->client: {det}")));
             }
         }
         for (i, st) in &server_streams {
             if case.streams[*i].0.read_api != 2
-                && let Some((sym, det)) = check_no_more(st, case.streams[*i].0.total()).await
+                && let Some((sym, det)) = check_no_more(st, case.streams[*i].0.total(), hc(*i) == 1).await
             {
                 problems.push((cause_of(case, UP, *i), sym, format!("stream #{i} client->server: {det}")));
             }
@@ -601,6 +643,7 @@ pub fn record(rep: &mut Report, prop_class: &str, case: &MuxCase, res: &MuxResul
     rep.add("bytes_compared", res.bytes_checked);
     rep.add("frames_parsed_c2s", res.frames_c2s);
     rep.add("sched_point_hits", res.sched_hits);
+    rep.add("streams_with_one_direction_ended_first", case.half_close.iter().filter(|m| **m != 0).count() as u64);
     rep.seen("interleavings", format!("{:016x}", res.interleaving));
     rep.seen("fragmentation_classes", format!("{} / {}", case.c2s.describe(), case.s2c.describe()));
     let mut seen = std::collections::HashSet::new();
